@@ -311,6 +311,14 @@ def emit(r, rng, name, policy, reg_style, flavours, leave_out=None):
                     acc = {"ref": "&a%d", "cref": "&a%d", "ptr": "a%d", "sp": "a%d.get()", "csp": "a%d.get()", "vp": "&*a%d", "cvp": "&*a%d",
                            "vsp": "a%d.get().get()", "cvsp": "a%d.get().get()"}[k] % p
                     probe.append("    g_seen[%d] = (const void*)%s;" % (vi, acc))
+                    if k in ("vp", "cvp"):
+                        # the pointer handed to the definition must carry the v-table of the pointee's
+                        # dynamic class (what a pointer built from a plain reference carries)
+                        probe.append("    g_vptr_ok[%d] = a%d._vptr() == virtual_ptr<%s%s>(*a%d)._vptr();" % (vi, p, cname(d[vi]), (", " + pol) if pol else "", p))
+                    elif k in ("vsp", "cvsp"):
+                        probe.append("    g_vptr_ok[%d] = a%d._vptr() == virtual_ptr<%s%s>(*a%d.get())._vptr();" % (vi, p, cname(d[vi]), (", " + pol) if pol else "", p))
+                    else:
+                        probe.append("    g_vptr_ok[%d] = true;" % vi)
                     vi += 1
             if m["api"] == "macro":
                 nx = "next"
@@ -433,6 +441,9 @@ def emit(r, rng, name, policy, reg_style, flavours, leave_out=None):
                 # the definition saw the caller's objects, viewed as its classes
                 for i in range(ar):
                     main.append('        CHECK(st != 0 || g_seen[%d] == (const void*)static_cast<%s*>(&o%d), "C11:wrong-object:%s:generated-hierarchy", "%s: virtual argument %d is not the caller\'s object viewed as %s");' % (i, cname(m["defs"][d][i]), tup[i], m["kinds"][i], tdesc, i, cname(m["defs"][d][i])))
+                for i in range(ar):
+                    if m["kinds"][i] in ("vp", "cvp", "vsp", "cvsp"):
+                        main.append('        CHECK(st != 0 || g_vptr_ok[%d], "C09:virtual_ptr-received-by-definition-carries-foreign-vtable:%s", "%s: the virtual_ptr passed to the definition for virtual argument %d does not carry the v-table of the pointee\'s class (a call through it would not run what a plain reference runs)");' % (i, m["kinds"][i], tdesc, i))
                 nx = next_of(der, m, d)
                 if nx[0] == "DEF":
                     main.append('        CHECK(st != 0 || next_is(%d, %d, g_next_ptr), "C03:next:def-expected", "%s: next of def %d is not def %d");' % (mi, nx[1], tdesc, d, nx[1]))
@@ -533,9 +544,137 @@ GLOBALS = r'''
 static int g_ran_method = -1, g_ran_def = -1;
 static void* g_next_ptr = nullptr;
 static const void* g_seen[4];
+static bool g_vptr_ok[4] = {true, true, true, true};
 static void* g_pf[8][8];
 static std::string g_str = "hello";
 '''
+
+
+def repeated_base_program(name, seed, flavours):
+    """a registered class inherits a registered class twice, non-virtually, through two
+    UNREGISTERED mix-ins; use_classes derives the relation from std::is_base_of"""
+    rng = random.Random(seed)
+    r = Reg()
+    r.n = 4  # 0 Animal, 1 Dog, 2 Bulldog, 3 Cat
+    r.bases = [[], [0], [1], [0]]
+    r.abstract = [False] * 4
+    der = r.closure()
+    names = ["Animal", "Dog", "Bulldog", "Cat"]
+    L = ["struct Animal { virtual ~Animal() {} int ta = 1; };",
+         "struct Named : Animal { int tn = 2; };      // not registered",
+         "struct Tracked : Animal { int tt = 3; };    // not registered",
+         "struct Dog : Named, Tracked { int td = 4; };",
+         "struct Bulldog : Dog { int tb = 5; };",
+         "struct Cat : Animal { int tc = 6; };"]
+    style = rng.choice(["one", "split", "split2"])
+    if style == "one":
+        order = names[:]
+        rng.shuffle(order)
+        L.append("static use_classes<%s> YOMM2_GENSYM;" % ", ".join(order))
+    elif style == "split":
+        L.append("static use_classes<Animal, Cat> YOMM2_GENSYM;")
+        L.append("static use_classes<Dog, Animal> YOMM2_GENSYM;")
+        L.append("static use_classes<Bulldog, Dog> YOMM2_GENSYM;")
+    else:
+        L.append("static use_classes<Bulldog, Dog, Animal> YOMM2_GENSYM;")
+        L.append("static use_classes<Cat, Animal> YOMM2_GENSYM;")
+    methods = []
+    # a uni-method on Animal, one on Dog (takes the neighbouring slot), a multi-method
+    for mi, (vp, ar) in enumerate([([0], 1), ([1], 1), ([0, 0], 2)]):
+        defs = []
+        for _ in range(rng.randint(1, 4)):
+            d = [rng.choice([c for c in range(4) if der[c][v]]) for v in vp]
+            if d not in defs:
+                defs.append(d)
+        methods.append(dict(arity=ar, vp=vp, defs=defs))
+    L.append("static int g_ran = -1;")
+    for mi, m in enumerate(methods):
+        L.append("struct K%d;" % mi)
+        L.append("using M%d = method<K%d, int(%s)>;" % (mi, mi, ", ".join("virtual_<%s&>" % names[v] for v in m["vp"])))
+        for di, d in enumerate(m["defs"]):
+            L.append("static int def_%d_%d(%s) { g_ran = %d; %s return %d; }" % (
+                mi, di, ", ".join("%s& a%d" % (names[c], i) for i, c in enumerate(d)), 100 * mi + di,
+                " ".join("g_seen[%d] = &a%d;" % (i, i) for i in range(len(d))), 100 * mi + di))
+            L.append("static M%d::add_function<def_%d_%d> reg_%d_%d;" % (mi, mi, di, mi, di))
+    main = ["int main() {",
+            "    default_policy::error = [](const error_type& e) { if (auto r = std::get_if<resolution_error>(&e)) throw *r; if (auto u = std::get_if<unknown_class_error>(&e)) throw *u; };",
+            "    bool ok = true; try { update(); } catch (unknown_class_error&) { ok = false; }",
+            '    CHECK(ok, "C08:update-rejects-legal-registration", "update reported an unknown class");',
+            "    if (!ok) { printf(\"VFB-COUNT %ld\\nVFB-DONE\\n\", g_checks); return 1; }",
+            "    Animal animal; Dog dog; Bulldog bulldog; Cat cat;"]
+    # expressions giving a reference of static type T to each object (both paths for the repeated base)
+    def exprs(obj_cls, static_cls):
+        o = ["animal", "dog", "bulldog", "cat"][obj_cls]
+        if static_cls == 0 and obj_cls in (1, 2):
+            return ["static_cast<Animal&>(static_cast<Named&>(%s))" % o, "static_cast<Animal&>(static_cast<Tracked&>(%s))" % o]
+        return ["static_cast<%s&>(%s)" % (names[static_cls], o)]
+    for mi, m in enumerate(methods):
+        accs = [[c for c in range(4) if der[c][v]] for v in m["vp"]]
+        for tup in itertools.product(*accs):
+            sel = select(der, m, tup)
+            choices = [exprs(c, v) for c, v in zip(tup, m["vp"])]
+            for args in itertools.product(*choices):
+                tdesc = "m%d(%s)" % (mi, ",".join(names[c] for c in tup))
+                main.append("    { g_ran = -1; int st = 0; try { M%d::fn(%s); } catch (resolution_error& e) { st = e.status; }" % (mi, ", ".join(args)))
+                if sel[0] == "DEF":
+                    main.append('      CHECK(st == 0 && g_ran == %d, "C01:wrong-definition:repeated-base-through-unregistered-classes", "%s ran %%d status %%d, expected %d", g_ran, st); }' % (100 * mi + sel[1], tdesc, 100 * mi + sel[1]))
+                else:
+                    w = 1 if sel[0] == "NODEF" else 2
+                    main.append('      CHECK(st == %d && g_ran == -1, "C02:wrong-status-or-definition-ran", "%s ran %%d status %%d, expected status %d", g_ran, st); }' % (w, tdesc, w))
+    combo = "repeated-non-virtual-base-through-unregistered-mixins/%s/defs=%s" % (style, "+".join(str(len(m["defs"])) for m in methods))
+    main.append('    printf("VFB-COMBO %s\\n");' % combo)
+    src = PRELUDE + GLOBALS + "\n".join(L) + "\n\n" + "\n".join(main) + EPILOGUE + "}\n"
+    return Program(name, src, combos=[combo], flavours=flavours)
+
+
+def nonpublic_base_program(name, seed, flavours):
+    """a registered class derives from a registered class through protected inheritance;
+    std::is_base_of (what use_classes documents) still sees the relationship"""
+    rng = random.Random(seed)
+    style = rng.choice(["one", "split"])
+    L = ["struct Widget { virtual ~Widget() {} int tw = 1; };",
+         "struct Button : Widget { int tb = 2; };",
+         "struct K0; struct K1;",
+         "using Describe = method<K0, int(virtual_<Widget&>)>;",
+         "struct Overlay : protected Widget { int to = 3; int describe_self() { return Describe::fn(*this); } };",
+         "struct Tooltip : Overlay { int tt = 4; int describe_tip() { return Describe::fn(*this); } };",
+         "using Frame = method<K1, int(virtual_<Overlay&>)>;"]
+    if style == "one":
+        order = ["Widget", "Button", "Overlay", "Tooltip"]
+        rng.shuffle(order)
+        L.append("static use_classes<%s> YOMM2_GENSYM;" % ", ".join(order))
+    else:
+        L.append("static use_classes<Widget, Button> YOMM2_GENSYM;")
+        L.append("static use_classes<Tooltip, Overlay, Widget> YOMM2_GENSYM;")
+    with_button = rng.random() < 0.5
+    L.append("static int describe_widget(Widget&) { return 10; }")
+    L.append("static Describe::add_function<describe_widget> r0;")
+    if with_button:
+        L.append("static int describe_button(Button&) { return 11; }")
+        L.append("static Describe::add_function<describe_button> r1;")
+    L.append("static int frame_overlay(Overlay&) { return 20; }")
+    L.append("static Frame::add_function<frame_overlay> r2;")
+    tip = rng.random() < 0.6
+    if tip:
+        L.append("static int frame_tooltip(Tooltip&) { return 21; }")
+        L.append("static Frame::add_function<frame_tooltip> r3;")
+    main = ["int main() {",
+            "    default_policy::error = [](const error_type& e) { if (auto r = std::get_if<resolution_error>(&e)) throw *r; if (auto u = std::get_if<unknown_class_error>(&e)) throw *u; };",
+            "    bool ok = true; try { update(); } catch (unknown_class_error&) { ok = false; }",
+            '    CHECK(ok, "C08:update-rejects-legal-registration", "update reported an unknown class");',
+            "    if (!ok) { printf(\"VFB-COUNT %ld\\nVFB-DONE\\n\", g_checks); return 1; }",
+            "    Widget w; Button b; Overlay o; Tooltip t;",
+            "    auto call = [](auto f) { try { return f(); } catch (resolution_error& e) { return -(int)e.status; } };",
+            '    CHECK(call([&] { return Describe::fn(w); }) == 10, "C08:non-public-base:wrong-dispatch", "describe(Widget)");',
+            '    CHECK(call([&] { return Describe::fn(b); }) == %d, "C08:non-public-base:wrong-dispatch", "describe(Button)");' % (11 if with_button else 10),
+            '    CHECK(call([&] { return o.describe_self(); }) == 10, "C08:non-public-base:derived-class-not-accepted-where-base-is-expected", "describe(Overlay viewed as its protected base Widget)");',
+            '    CHECK(call([&] { return t.describe_tip(); }) == 10, "C08:non-public-base:derived-class-not-accepted-where-base-is-expected", "describe(Tooltip viewed as Widget)");',
+            '    CHECK(call([&] { return Frame::fn(o); }) == 20, "C08:non-public-base:wrong-dispatch", "frame(Overlay)");',
+            '    CHECK(call([&] { return Frame::fn(t); }) == %d, "C08:non-public-base:wrong-dispatch", "frame(Tooltip)");' % (21 if tip else 20)]
+    combo = "protected-base-between-registered-classes/%s/button=%d/tooltip=%d" % (style, with_button, tip)
+    main.append('    printf("VFB-COMBO %s\\n");' % combo)
+    src = PRELUDE + GLOBALS + "\n".join(L) + "\n\n" + "\n".join(main) + EPILOGUE + "}\n"
+    return Program(name, src, combos=[combo], flavours=flavours)
 
 
 def programs(tier, seed, focus=None):
@@ -565,4 +704,7 @@ def programs(tier, seed, focus=None):
                 if policy == "throw":
                     policy = "debug"
         out.append(emit(r, rng, "disp-s%d-p%d" % (seed, k), policy, style, flav, leave))
+    for k in range(1 if tier == "quick" else 6):
+        out.append(repeated_base_program("disp-s%d-rb%d" % (seed, k), seed * 17 + k, ["clang-asan"] if k % 2 == 0 else ["clang-asan-ndebug"]))
+        out.append(nonpublic_base_program("disp-s%d-np%d" % (seed, k), seed * 19 + k, ["clang-asan-ndebug"] if k % 2 == 0 else ["clang-asan"]))
     return out
